@@ -60,6 +60,7 @@ def main():
         return 0
 
     warnings.filterwarnings("ignore", message="numpy.core is deprecated")
+    warnings.filterwarnings("ignore", message="Skipping some optimization steps")
     rep = common.Report(cid, args.tier, seed)
     mod = importlib.import_module(f"harness.props.{cid.lower()}")
     rep.rule = getattr(mod, "RULE", "")
